@@ -8,7 +8,7 @@ non-empty subset of operands requiring grad, on a fresh forward pass per upstrea
 from ..vlib import core
 from .. import cat_common as CC
 
-KINDS = {"grad_value", "backward_error"}
+KINDS = {"second_backward", "grad_value", "backward_error"}
 
 
 def run(ctx):
